@@ -98,7 +98,8 @@ def sequence(ctx, seed):
     today = datetime.date.today().isoformat()
     try:
         bases = ['Add-%d' % i for i in range(3)] + ['add*%d' % seed]
-        nsteps = rng.randint(1, 8)
+        nsteps = rng.randint(1, 8) if seed % 3 else rng.randint(3, 8)
+        retry = None
         for step in range(nsteps):
             name = rng.choice(bases)
             fb = name.lower().replace('*', '_st_')
@@ -109,6 +110,16 @@ def sequence(ctx, seed):
             refs = gen_refs(rng, zs)
             role, family = 'orbital', 'addfam'
             kind = rng.choice(['ok', 'ok', 'ok', 'ok', 'invalid-data', 'invalid-role', 'invalid-family', 'name-clash', 'bad-refs', 'file', 'differing-types'])
+            if seed % 3 == 0 and step < 2 and nsteps >= 3:
+                # a fixed opening: a valid addition, then a new version of it that is refused, then (retry) the corrected one
+                name, fb = bases[0], bases[0].lower()
+                kind = ['ok', 'differing-types'][step]
+                version = str(step)
+            if retry is not None:
+                # the refused addition of the previous step, corrected: same name, file base, version and sub-directory
+                name, fb, version, sub = retry
+                kind = 'ok'
+                retry = None
             if kind == 'invalid-data':
                 sh = [s for el in comp['elements'].values() for s in el.get('electron_shells', [])]
                 if sh:
@@ -167,6 +178,8 @@ def sequence(ctx, seed):
                 if k != 'METADATA.json' and after.get(k) != v:
                     ctx.violation(site, 'overwritten', 'file %s was changed or removed by an addition' % k, replay)
             if r[0] != 'ok':
+                if kind in ('differing-types', 'invalid-data', 'bad-refs') and (rng.random() < 0.7 or seed % 3 == 0):
+                    retry = (name, fb, version, sub)
                 if after != before:
                     ctx.violation(site, 'failed-add-changed-directory:' + kind, 'a refused addition (%s) left the directory changed: new files %s'
                                   % (kind, sorted(set(after) - set(before))), replay)
